@@ -503,7 +503,15 @@ def _replay(job):
     exprs = [cur]
     shapes = [tuple(rec['xs']) if hist[0]['leaf'] == 'X' else tuple(rec['zs'])]
     raised = None
+
+    def _snap(e):
+        try:
+            return dense(e, c)[0].copy()
+        except Exception:
+            return None
     for k, st in enumerate(hist[1:], 1):
+        before = _snap(cur)
+        prev = cur
         try:
             cur = rs_step(st, cur, c, ctype)
             if not hasattr(cur, 'linear') and not hasattr(cur, 'raffine') and hasattr(cur, 'to_affine'):
@@ -517,6 +525,13 @@ def _replay(job):
             raised = (k, type(e).__name__, str(e)[:200], ('%s:%d' % (lib[-1].filename, lib[-1].lineno)) if lib else 'numpy/scipy')
             break
         exprs.append(cur)
+        # operators denote functions: applying one must not change what its operand denotes
+        # (a result that aliases and then edits the operand's matrices corrupts every later use of the operand)
+        after = _snap(prev)
+        if before is not None and after is not None and (before.shape != after.shape or not np.array_equal(before, after)):
+            out['findings'].append(dict(sig='C05:operand-changed-by-operator:%s:%s' % (st['op'], kind_name(prev)), prop='C05', step=k,
+                                        what='the operand of step %d denotes another function after the operator was applied' % k,
+                                        hist=hist[:k + 1], leaf=leaf, ctype=ctype))
         try:
             shapes.append(tuple(int(v) for v in (cur.to_affine().shape if not hasattr(cur, 'linear') and not hasattr(cur, 'raffine') and hasattr(cur, 'to_affine') else cur.shape)))
         except Exception:
